@@ -207,7 +207,9 @@ func runCase(c *caseData) (o obs) {
 		}
 		ct := cancelTick.Load()
 		if ct < 0 && ctx.Err() != nil {
-			markCancel(n - 1)
+			// the number of ticks begun by now (not n-1: this goroutine may have been descheduled
+			// between taking its number and looking at the context, while others went on ticking)
+			markCancel(ticks.Load())
 			ct = cancelTick.Load()
 		}
 		if returned.Load() {
@@ -220,6 +222,9 @@ func runCase(c *caseData) (o obs) {
 			// cooperative between cancel and return: let the watcher goroutine run
 			runtime.Gosched()
 			d := time.Duration(n-ct) * 20 * time.Microsecond
+			if d < 20*time.Microsecond {
+				d = 20 * time.Microsecond
+			}
 			if d > 2*time.Millisecond {
 				d = 2 * time.Millisecond
 			}
@@ -422,7 +427,7 @@ func judge(c *caseData, o *obs) []verdict {
 	}
 	bound := int64(tickBound * tickers(sh, c.Chain, c.Mid))
 	if o.CancelTick >= 0 && o.AtReturn-o.CancelTick > bound {
-		vs = append(vs, verdict{"too-many-ticks-after-cancel:" + c.shapeTag(), head + fmt.Sprintf("%d tick() calls happened between the cancellation (after tick %d) and the return of risor.Eval (bound %d); each of them yielded the processor", o.AtReturn-o.CancelTick, o.CancelTick, bound)})
+		vs = append(vs, verdict{"too-many-ticks-after-cancel:" + c.shapeTag(), head + fmt.Sprintf("%d tick() calls happened between the cancellation (after tick %d) and the return of risor.Eval (bound %d); each of them yielded the processor; %d ms passed between the two, %d ms since the start", o.AtReturn-o.CancelTick, o.CancelTick, bound, o.ReturnMs, o.WallMs)})
 	}
 	if o.Running {
 		vs = append(vs, verdict{"runs-after-return:" + c.shapeTag() + ":" + c.nesting(), head + fmt.Sprintf("tick counter at the return of risor.Eval: %d; samples every %v afterwards: %v (it advanced in %d consecutive intervals)", o.AtReturn, settleStep, o.Samples, settleMax)})
